@@ -20,6 +20,7 @@ type hMod struct {
 	b      *Block
 	i1, i2 *InstAdd
 	named  *InstAdd
+	al     *InstAlloca
 }
 
 func hC14Build(n1, n2 string) *hMod {
@@ -32,11 +33,13 @@ func hC14Build(n1, n2 string) *hMod {
 	named := b.NewAdd(i1, i1)
 	named.SetName("k")
 	i2 := b.NewAdd(i1, named)
+	al := b.NewAlloca(types.I32)
+	al.SetName("slot")
 	b.NewRet(i2)
-	return &hMod{m: m, f: f, b: b, i1: i1, i2: i2, named: named}
+	return &hMod{m: m, f: f, b: b, i1: i1, i2: i2, named: named, al: al}
 }
 
-const hC14Edits = 12
+const hC14Edits = 16
 
 // hC14Edit applies edit k.  Edits 0-5 keep the numbers of already numbered
 // values; 6-9 shift them.
@@ -86,6 +89,32 @@ func hC14Edit(h *hMod, k int, nm string) {
 		}
 		g := NewGlobalDef("", constant.NewInt(types.I32, 9))
 		h.m.Globals = append([]*Global{g}, h.m.Globals...)
+	// 12-15: assign an exported field that a derived (cached) type depends on,
+	// then add a use whose printed form shows that type
+	case 12: // address space of a global, then a load from it
+		g := h.m.Globals[0]
+		g.AddrSpace = 1
+		ld := NewLoad(types.I32, g)
+		ld.SetName(nm)
+		h.b.Insts = append(h.b.Insts, ld)
+	case 13: // content type and initialiser of a global, then a load from it
+		g := h.m.Globals[0]
+		g.ContentType = types.I64
+		g.Init = constant.NewInt(types.I64, 7)
+		ld := NewLoad(types.I64, g)
+		ld.SetName(nm)
+		h.b.Insts = append(h.b.Insts, ld)
+	case 14: // address space of a function, then a call from a new function
+		h.f.AddrSpace = 2
+		caller := h.m.NewFunc(nm+"3", types.Void)
+		cb := caller.NewBlock("entry")
+		cb.NewCall(h.f, one).SetName("r")
+		cb.NewRet(nil)
+	case 15: // address space of an alloca, then a load from it
+		h.al.AddrSpace = 5
+		ld := NewLoad(types.I32, h.al)
+		ld.SetName(nm)
+		h.b.Insts = append(h.b.Insts, ld)
 	case 9: // insert an unnamed global before the unnamed one
 		g := NewGlobalDef("", constant.NewInt(types.I32, 9))
 		h.m.Globals = append([]*Global{g}, h.m.Globals...)
